@@ -302,6 +302,9 @@ func init() {
 				got := c16Expect(x, `$fromMillis(0, "[H01]:[m01]", tz)`, doc, nil, false, false)
 				x.Validated()
 				valid := reOffset.MatchString(tz)
+				if valid && tz[3:] > "59" {
+					valid = false // MM counts the minutes of an hour
+				}
 				if !valid && got.Kind != impl.Error {
 					x.Violation("value", "offset:"+tz, explore.Detail{Program: `$fromMillis(0, "[H01]:[m01]", tz)`, Input: jsonText(doc), Expected: "an error: the time zone is not +HHMM/-HHMM", Observed: got.String()})
 				}
